@@ -9,37 +9,31 @@ mod __verif_skip {
     // sequential kernel of C17 (and the ownership clause shared with C07).  MAX_HEIGHT = 3 and the
     // tower height of every inserted node is SYMBOLIC in 1..=3 (random_height uses thread_rng, which
     // CBMC cannot execute): every tower shape over the inserted keys is explored.
-    const MH: usize = 3;
-    type SL = SkipList<u8, u8, MH>;
+    type SL<const MH: usize> = SkipList<u8, u8, MH>;
     fn stub_height<K: Eq + Ord + Default, V: Default, const MAX_HEIGHT: usize>() -> usize {
         let h: usize = kani::any();
         kani::assume(h >= 1 && h <= MAX_HEIGHT);
         h
     }
 
-    const NK: usize = 3;
-    // insert n <= 3 distinct symbolic keys in symbolic order with symbolic heights
-    fn build() -> (SL, [u8; NK], usize) {
-        let sl = SL::default();
+    // insert n <= NK distinct symbolic keys in symbolic order with symbolic heights
+    fn build<const MH: usize, const NK: usize>() -> (SL<MH>, [u8; NK], usize) {
+        let sl = SL::<MH>::default();
         let keys: [u8; NK] = kani::any();
         let n: usize = kani::any();
         kani::assume(n <= NK);
-        kani::assume(keys[0] != keys[1] && keys[0] != keys[2] && keys[1] != keys[2]);
+        let mut a = 0; while a < NK { let mut b = a + 1; while b < NK { kani::assume(keys[a] != keys[b]); b += 1; } a += 1; }
         let mut i = 0;
         while i < NK { if i < n { sl.insert(keys[i], keys[i] ^ 0x5a); } i += 1; }
         (sl, keys, n)
     }
-    fn count_lt(keys: &[u8; NK], n: usize, k: u8) -> usize { let mut c = 0; let mut i = 0; while i < NK { if i < n && keys[i] < k { c += 1; } i += 1; } c }
-    fn member(keys: &[u8; NK], n: usize, k: u8) -> bool { let mut m = false; let mut i = 0; while i < NK { if i < n && keys[i] == k { m = true; } i += 1; } m }
+    fn count_lt<const NK: usize>(keys: &[u8; NK], n: usize, k: u8) -> usize { let mut c = 0; let mut i = 0; while i < NK { if i < n && keys[i] < k { c += 1; } i += 1; } c }
+    fn member<const NK: usize>(keys: &[u8; NK], n: usize, k: u8) -> bool { let mut m = false; let mut i = 0; while i < NK { if i < n && keys[i] == k { m = true; } i += 1; } m }
 
     // every iteration yields strictly increasing keys, each inserted key exactly once, forward and backward;
     // every returned insert is found by contains; nothing else is.
-    //@ H kind=bounded tier=quick timeout=1800 bound="<= 3 inserts of distinct u8 keys in every order, every tower height in 1..=3 (MAX_HEIGHT = 3), single thread" oblig="skipfree::SkipList::insert+iter::ordered-complete"
-    #[kani::proof]
-    #[kani::unwind(9)]
-    #[kani::stub(SkipList::random_height, stub_height)]
-    fn insert_iterate() {
-        let (sl, keys, n) = build();
+    fn insert_iterate_g<const MH: usize, const NK: usize>() {
+        let (sl, keys, n) = build::<MH, NK>();
         let mut it = sl.iter();
         it.seek_to_first();
         // NOTE: skipfree's seek_to_first lands ON the first element (its doc comment says otherwise);
@@ -78,17 +72,13 @@ mod __verif_skip {
         assert!(seen_b == n);
         let probe: u8 = kani::any();
         assert!(sl.contains(&probe) == member(&keys, n, probe));
-        kani::cover!(n == 3 && keys[0] > keys[1] && keys[2] > keys[0]);
+        kani::cover!(n == NK && keys[0] > keys[1]);
         core::mem::forget(sl);
     }
 
     // seek / next / prev move to the nearest existing key in their direction
-    //@ H kind=bounded tier=quick timeout=1800 bound="<= 3 inserts of distinct u8 keys in every order, every tower height in 1..=3, every seek key" oblig="skipfree::SkipListIterator::seek/next/prev::nearest"
-    #[kani::proof]
-    #[kani::unwind(9)]
-    #[kani::stub(SkipList::random_height, stub_height)]
-    fn seek_nearest() {
-        let (sl, keys, n) = build();
+    fn seek_nearest_g<const MH: usize, const NK: usize>() {
+        let (sl, keys, n) = build::<MH, NK>();
         let mut it = sl.iter();
         let target: u8 = kani::any();
         it.seek(&target);
@@ -116,19 +106,15 @@ mod __verif_skip {
                 assert!(k > k0 && member(&keys, n, k) && count_lt(&keys, n, k) == below + 1);
             }
         }
-        kani::cover!(n == 3 && below == 1);
+        kani::cover!(n == NK && below == 1);
         core::mem::forget(sl);
     }
 
     // "An iterator remains valid for as long as it is held" / the crate's own doc: "This iterator will
     // keep the body of the skiplist in-memory even after the skiplist itself goes out of scope."
     // Kani checks every dereference against live allocations.
-    //@ H kind=bounded tier=quick timeout=1800 native=no bound="<= 3 inserts, every tower height; program: iter, position, drop(list), read+step iterator" oblig="skipfree::SkipListIterator::outlives-list (ownership)"
-    #[kani::proof]
-    #[kani::unwind(9)]
-    #[kani::stub(SkipList::random_height, stub_height)]
-    fn iterator_outlives_list() {
-        let (sl, keys, n) = build();
+    fn iterator_outlives_list_g<const MH: usize, const NK: usize>() {
+        let (sl, keys, n) = build::<MH, NK>();
         kani::assume(n >= 1);
         let mut it = sl.iter();
         it.seek_to_first();
@@ -140,6 +126,36 @@ mod __verif_skip {
         if n >= 2 { assert!(it.is_valid()); let k2 = *it.key(); assert!(count_lt(&keys, n, k2) == 1); }
         it.prev();
         assert!(it.is_valid() && *it.key() == k);
-        kani::cover!(n == 3);
+        kani::cover!(n == NK);
     }
+
+    //@ H kind=bounded tier=quick timeout=1500 bound="<= 2 inserts of distinct u8 keys in every order, every tower height in 1..=2 (MAX_HEIGHT = 2), single thread" oblig="skipfree::SkipList::insert+iter::ordered-complete"
+    #[kani::proof]
+    #[kani::unwind(8)]
+    #[kani::stub(SkipList::random_height, stub_height)]
+    fn insert_iterate() { insert_iterate_g::<2, 2>(); }
+
+    //@ H kind=bounded tier=quick timeout=1500 bound="<= 2 inserts of distinct u8 keys in every order, every tower height in 1..=2, every seek key" oblig="skipfree::SkipListIterator::seek/next/prev::nearest"
+    #[kani::proof]
+    #[kani::unwind(8)]
+    #[kani::stub(SkipList::random_height, stub_height)]
+    fn seek_nearest() { seek_nearest_g::<2, 2>(); }
+
+    //@ H kind=bounded tier=quick timeout=1500 native=no bound="<= 2 inserts, every tower height in 1..=2; program: iter, position, drop(list), read+step iterator" oblig="skipfree::SkipListIterator::outlives-list (ownership)"
+    #[kani::proof]
+    #[kani::unwind(8)]
+    #[kani::stub(SkipList::random_height, stub_height)]
+    fn iterator_outlives_list() { iterator_outlives_list_g::<2, 2>(); }
+
+    //@ H kind=bounded tier=thorough timeout=14400 bound="<= 3 inserts, every order, every tower height in 1..=3 (MAX_HEIGHT = 3)" oblig="skipfree::SkipList::insert+iter::ordered-complete (3x3)"
+    #[kani::proof]
+    #[kani::unwind(10)]
+    #[kani::stub(SkipList::random_height, stub_height)]
+    fn insert_iterate_3() { insert_iterate_g::<3, 3>(); }
+
+    //@ H kind=bounded tier=thorough timeout=14400 bound="<= 3 inserts, every order, every tower height in 1..=3, every seek key" oblig="skipfree::SkipListIterator::seek/next/prev::nearest (3x3)"
+    #[kani::proof]
+    #[kani::unwind(10)]
+    #[kani::stub(SkipList::random_height, stub_height)]
+    fn seek_nearest_3() { seek_nearest_g::<3, 3>(); }
 }
